@@ -17,6 +17,7 @@ from concurrent.futures import ThreadPoolExecutor
 from . import common
 from . import pipeline_common as pc
 from . import pipeline_cliargs
+from . import c18_session
 from .common import log
 
 FAKE = """#!/bin/sh
@@ -424,6 +425,8 @@ def run(rep, tier, seed, selftest):
     argspart = pipeline_cliargs.run_part(penne, root, tier, findings, selftest)
     for note in argspart["notes"]:
         rep.note_drift(note)
+    # fourth part (CliSession.tla): several emissions into ONE output directory (what an invocation may take from the directory it finds)
+    sesspart = c18_session.run_part(penne, root, tier, findings, selftest)
     # classified, not part of the product: an absolute input path (the property quantifies over relative ones)
     probe = os.path.join(root, "abs")
     os.makedirs(probe)
@@ -458,23 +461,28 @@ def run(rep, tier, seed, selftest):
         lost = dict(obs, ll={})
         self_results["missing_ll_file_detected"] = any(cl == "out-dir" for cl, _ in compare(case, lost))
         self_results.update(argspart["selftests"])
+        self_results.update(sesspart["selftests"])
         log("[selftest] %s" % json.dumps(self_results))
         for name, ok in self_results.items():
             if not ok:
                 raise common.ToolError("self-test %s failed" % name)
     sample_idx = [idx[0], idx[len(idx) // 2], idx[-1]]
     coverage = {
-        "states": r.distinct,
-        "transitions": r.generated,
-        "traces_validated_against_impl": len(idx) + argspart["configurations"] + argspart["fuzz_configurations"],
+        "states": r.distinct + sesspart["states"],
+        "transitions": r.generated + sesspart["transitions"],
+        "traces_validated_against_impl": len(idx) + argspart["configurations"] + argspart["fuzz_configurations"] + sesspart["behaviours"],
         "samples": [{"cfg": canon(cases[i]["cfg"]), "expect": cases[i]["expect"]} for i in sample_idx],
-        "evaluations": len(idx) + argspart["configurations"] + argspart["fuzz_configurations"],
-        "distinct_nontrivial": len(nontrivial) + argspart["configurations"] + argspart["fuzz_configurations"],
+        "evaluations": len(idx) + argspart["configurations"] + argspart["fuzz_configurations"] + sesspart["behaviours"],
+        "distinct_nontrivial": len(nontrivial) + argspart["configurations"] + argspart["fuzz_configurations"] + sesspart["behaviours_reusing_a_directory"],
         "rule": "TLC enumerates the full product of configurations of Cli.tla (%d) with the observables R prescribes; %s are replayed "
                 "against the real binary. Third part (CliArgs.tla): every base invocation with at most 2 (quick) / 3 (thorough) deviations among -o, "
                 "--backend-args / --link-args by flag and / or config file, wasm = true and broken config files, 1-3 input files in both orders, "
                 "unreadable inputs, out dirs that are missing / deep / a regular file, scheme paths, the same module twice, --color never under "
-                "NO_COLOR / TERM=dumb, plus the full product of `penne fuzz tokens`; all replayed. Non-trivial = distinct configurations replayed." %
+                "NO_COLOR / TERM=dumb, plus the full product of `penne fuzz tokens`; all replayed. Fourth part (CliSession.tla): every sequence of up to 4 (quick) / 5 (thorough) steps "
+                "among emit (both modules / the imported one, native / --wasm), edit of ONE source text, a foreign file planted at the path of an IR file, removal of an IR "
+                "file, all in one output directory; TLC checks that the rule makes an emission a function of sources and target alone, every behaviour is replayed and "
+                "after each emission every IR file is compared with what the binary writes into an empty directory. "
+                "Non-trivial = distinct configurations replayed + behaviours that reuse a directory holding files." %
                 (len(cases), "a pairwise cover plus a seeded sample" if tier == "quick" else "all of them"),
         "exhaustive": tier != "quick",
         "configurations_total": len(cases),
@@ -484,6 +492,7 @@ def run(rep, tier, seed, selftest):
         "clauses_violated": findings.counts(),
         "catalogue": cat,
         "arguments": argspart,
+        "sessions": sesspart,
         "selftests": self_results,
     }
     assumptions = [
